@@ -176,13 +176,15 @@ class Model:
                     src = f.read()
             self.modules[m] = Module(m, path, src)
         # tuple records (namedtuple / NamedTuple) are written as the plain tuples they are (records.py)
-        from .records import detuple, decontainer, dewalrus
+        from .records import detuple, decontainer, dewalrus, deconst
         n_walrus = dewalrus([m.tree for m in self.modules.values()])
+        n_const = deconst({nm_: m.tree for nm_, m in self.modules.items()})
         self.record_stats = detuple([m.tree for m in self.modules.values()])
         # ... and `for x in self` as the loop over the attribute the class's __iter__ hands out
         self.record_stats['container_rewrites'] = decontainer([m.tree for m in self.modules.values()])
         self.record_stats['walrus_hoisted'] = n_walrus
-        if self.record_stats['creations'] or self.record_stats['reads'] or self.record_stats['container_rewrites'] or n_walrus:
+        self.record_stats['int_constants_inlined'] = n_const
+        if self.record_stats['creations'] or self.record_stats['reads'] or self.record_stats['container_rewrites'] or n_walrus or n_const:
             for m in self.modules.values():
                 for node in ast.walk(m.tree):
                     for ch in ast.iter_child_nodes(node):
